@@ -234,12 +234,12 @@ def main():
                         "accepts without diagnostics, a grid of double/int literals, and %d query forms x boolean/numeric operand "
                         "pools (%d x %d): str() -> parse in the same scope -> compare tree, symbols, constants (bit-exact) and "
                         "second str(). non-trivial = accepted by the library (so the round trip is actually exercised)."
-                        % (", depth-3 chains, two-compound-operand parents" if engine.tier() == "thorough" else "",
+                        % (", depth-3 chains, two-compound-operand parents",
                            len(query_forms()), len(BOOLS), len(NUMS)))
     n = engine.ncpu()
     shards = [("d1", 0, 1)] + [("d2", i, n) for i in range(n)]
-    if rep.tier == "thorough":
-        shards += [("d3", i, 4 * n) for i in range(4 * n)] + [("p2", i, 2 * n) for i in range(2 * n)]
+    # (both tiers: the whole enumeration takes seconds)
+    shards += [("d3", i, 4 * n) for i in range(4 * n)] + [("p2", i, 2 * n) for i in range(2 * n)]
     for res in engine.pmap(run_shard, shards):
         rep.merge(res)
     run_literals(rep)
